@@ -192,6 +192,9 @@ func evalOne(c *wctx, p *prog, iset int, refHint *outcome) evalResult {
 
 	// ---- absolute expectations (wrapper programs) -----------------------------------------------
 	checkExpect(p, &k1, add)
+	if p.onKVM != nil {
+		p.onKVM(iset, &k1)
+	}
 
 	// ---- DIFFERENTIAL ---------------------------------------------------------------------------
 	if p.nilChainID {
@@ -311,6 +314,50 @@ func checkExpect(p *prog, k *outcome, add func(kind, detail string)) {
 			a, s := stateDigest(k.st, k.tr.addrs, k.tr.slots)
 			if a == pa && s == ps && len(k.logs) == 0 {
 				add("harness-control", "control wrapper: the state-changing action had no effect")
+			}
+		case strings.HasPrefix(e, "ifok:"):
+			// "ifok:<j>=<a>|<b>": if the top frame succeeded and returned word j, it is one of the listed values.
+			// "ifok:<i>=<v>:<j>=<a>|<b>": the same, only when word i equals v.
+			if k.status != stOK {
+				break
+			}
+			parts := strings.Split(e[len("ifok:"):], ":")
+			word := func(i int) ([]byte, bool) {
+				if len(k.ret) < 32*(i+1) {
+					return nil, false
+				}
+				return k.ret[32*i : 32*i+32], true
+			}
+			parse := func(s string) (int, []word32) {
+				var idx int
+				eq := strings.Index(s, "=")
+				fmt.Sscanf(s[:eq], "%d", &idx)
+				var vals []word32
+				for _, h := range strings.Split(s[eq+1:], "|") {
+					vals = append(vals, wordOfHex(h))
+				}
+				return idx, vals
+			}
+			holds := func(s string) (bool, bool) {
+				idx, vals := parse(s)
+				w, ok := word(idx)
+				if !ok {
+					return false, false
+				}
+				for _, v := range vals {
+					if bytes.Equal(w, v[:]) {
+						return true, true
+					}
+				}
+				return false, true
+			}
+			if len(parts) == 2 {
+				if h, ok := holds(parts[0]); !ok || !h {
+					break
+				}
+			}
+			if h, ok := holds(parts[len(parts)-1]); ok && !h {
+				add("expect-return", fmt.Sprintf("expected %s, got %s", e, short(k.ret)))
 			}
 		case strings.HasPrefix(e, "maxdepth="):
 			var d int
@@ -459,7 +506,7 @@ var (
 	nViolCase int64
 )
 
-const maxViolCases = 400
+const maxViolCases = 4000
 
 func hasKind(fs []finding, kind string) *finding {
 	for i := range fs {
